@@ -227,7 +227,7 @@ def campaign_bridge(ck: Check, n: int, fork: str = "bridge", docs: list | None =
                 if sup_union and r == "field":
                     ck.disagree(camp, inp, "supported under field_constraints", "the real tree uses call syntax / alias")
                 break
-            if not sup_union or "(dt x - 00000 () - - ())" in tree:
+            if "(dt x - 00000 () - - ())" in tree:
                 # outside the supported subset (const, bare List, constrained scalar type): the bridge has the empty node
                 camp.hit("outside-sup")
                 break
